@@ -9,7 +9,7 @@
        of the main query is the order in effect of the whole pipeline however many CTEs it was cut
        into, and every take is handed the order in effect at its position. *)
 From Coq Require Import List ZArith Bool Permutation Sorting.Sorted.
-From PV Require Import Model.Rel Proofs.OrderFacts Model.Sorts Proofs.SortsProofs Proofs.Theta2.
+From PV Require Import Model.Rel Proofs.OrderFacts Model.Sorts Proofs.SortsProofs Proofs.Theta2 Model.Flatten Proofs.FlattenProofs.
 Import ListNotations.
 
 (* ---- (a) ---- *)
@@ -75,6 +75,29 @@ Theorem c03_state_tracks_order_in_effect :
   agrees key s o -> agrees key (fst (run key is_empty empty ctes s p)) (eff key o p).
 Proof. exact run_agrees. Qed.
 Print Assumptions c03_state_tracks_order_in_effect.
+
+(* ---- (c) resolver side: model of the Flattener (semantic/resolver/flatten.rs), compared with the
+   implementation's RQ (Take.sort, Compute.window.sort, surviving Sort transforms) on every generated
+   program.  Whatever sorts are dropped in front of a group, every take and every windowed compute is
+   handed exactly the order in effect at its position, at any nesting depth of group/window bodies. *)
+Theorem c03_flattener_carries_order_in_effect : forall (key : Type) (empty : key) fuel und part s p,
+  Flatten.carried_of key (fst (Flatten.flat key empty fuel und part s p)) = fst (Flatten.carried_spec key empty fuel part s p) /\
+  snd (Flatten.flat key empty fuel und part s p) = snd (Flatten.carried_spec key empty fuel part s p).
+Proof. exact flat_carries_order_in_effect. Qed.
+Print Assumptions c03_flattener_carries_order_in_effect.
+
+Theorem c03_plain_pipeline_keeps_sorts : forall (key : Type) (empty : key) p fuel part s,
+  FlattenProofs.plain key p = true -> length p < fuel ->
+  FlattenProofs.emitted_sorts key (fst (Flatten.flat key empty fuel false part s p)) = FlattenProofs.sorts_of key p.
+Proof. exact plain_pipeline_keeps_sorts. Qed.
+Print Assumptions c03_plain_pipeline_keeps_sorts.
+
+(* F37 at model level: two takes under different sorts in front of a group lose both Sort transforms
+   (the takes still carry their sorts, but nothing separates them any more) *)
+Example c03_ex_f37 :
+  fst (Flatten.flat (list bool) [] 20 false false [] [PSort [false]; PTake; PSort [true]; PTake; PGroup true [PTake]])
+  = [OTake false [false]; OTake false [true]; OTake true []].
+Proof. vm_compute. reflexivity. Qed.
 
 (* non-vacuity: sort | take | filter, cut after the take: the main query re-emits the sort *)
 Example c03_ex_split :
